@@ -1135,4 +1135,137 @@ theorem c17_read_short_seedkey (env : Env) (c0 s0 : Node) (hc0 : Clean c0) (hs0 
   exact clean_of _ z3 (by rw [z11, p9, k4, hrs1]; exact hs0.q) z4 z5 (by rw [z11, p9, k4, hrs1]; exact hs0.qd)
     (by rw [z11, p9, k4, hrs1]; exact hs0.qe) z8 z6 z7 z9 z10
 
+/-- the client's side of a write with seed/key: as `clientWrite`, with the seed DM15 answered in between -/
+def clientWriteSK (env : Env) (c0 : Node) (sv direct address osize : Nat) (values : List Nat) (seed : Nat) : Node × List Out × Ret :=
+  let r1 := Dm14.write c0 sv direct address values osize
+  let r1b := deliver env r1.1 0 true ⟨PGN_DM15, sv, seedDm15 direct seed⟩
+  let r2 := deliver env r1b.n 0 true ⟨PGN_DM15, sv, proceedDm15 direct values.length⟩
+  let r4 := deliver env r2.n 0 true ⟨PGN_DM15, sv, opcDm15 direct⟩
+  let r5 := clientResume r4.n false
+  (r5.1, r1.2.1 ++ r1b.outs ++ r2.outs ++ r4.outs, r5.2)
+
+theorem client_write_sk (env : Env) (c0 : Node) (hcl : Clean c0) (hck : c0.q.hasKey = true) (sv direct address osize : Nat)
+    (values : List Nat) (seed : Nat) (hv : ∀ v ∈ values, v < 256 ^ osize) (hc : values ≠ []) (ha : address < 2 ^ 32)
+    (hd : direct < 16) (hs : seed < 2 ^ 16) :
+    (clientWriteSK env c0 sv direct address osize values seed).2.1 =
+      [.tx PGN_DM14 (sv &&& 0xFF) 6 (openDm14 values.length direct CMD_WRITE address c0.q.userLevel),
+       .tx PGN_DM14 (sv &&& 0xFF) 6 (openDm14 values.length direct CMD_WRITE address (env.ckey seed)),
+       .tx PGN_DM16 (sv &&& 0xFF) 6 (cliDm16 (valuesToBytes osize values)),
+       .tx PGN_DM14 (sv &&& 0xFF) 6 (closeDm14 direct address)] ∧
+    (clientWriteSK env c0 sv direct address osize values seed).2.2 = .none ∧
+    Clean (clientWriteSK env c0 sv direct address osize values seed).1 := by
+  have hb := client_write_begin c0 hcl sv direct address osize values hv ha
+  have hlen0 : values.length ≠ 0 := by
+    intro h; exact hc (List.eq_nil_of_length_eq_zero h)
+  have hseedstep := client_answers_seed env (cWaitSeedW c0 sv direct address osize values) sv direct seed hd hs rfl rfl rfl
+    (by show values.length ≠ 0; exact hlen0) (by show c0.q.hasKey = true; exact hck)
+  obtain ⟨c1, c2, c3, _⟩ := client_write env c0 hcl sv direct address osize values hv hc ha hd
+  unfold clientWriteSK
+  unfold clientWrite at c1 c2 c3
+  rw [hb] at c1 c2 c3 ⊢
+  dsimp only at c1 c2 c3 ⊢
+  rw [hseedstep]
+  dsimp only
+  refine ⟨?_, c2, c3⟩
+  simp only [List.cons_append, List.nil_append] at c1 ⊢
+  have : (deliver env (cWaitSeedW c0 sv direct address osize values) 0 true ⟨PGN_DM15, sv, proceedDm15 direct values.length⟩).outs ++
+       (deliver env (deliver env (cWaitSeedW c0 sv direct address osize values) 0 true ⟨PGN_DM15, sv, proceedDm15 direct values.length⟩).n 0 true ⟨PGN_DM15, sv, opcDm15 direct⟩).outs
+      = [.tx PGN_DM16 (sv &&& 0xFF) 6 (cliDm16 (valuesToBytes osize values)), .tx PGN_DM14 (sv &&& 0xFF) 6 (closeDm14 direct address)] := by
+    have := c1
+    simp only [List.cons.injEq, true_and] at this
+    simpa [List.append_assoc] using this
+  rw [this]
+  simp [qDm14, cWaitSeedW, openDm14, CMD_WRITE]
+/-- C17, WRITE WITH seed/key, the whole transaction (any seed, key functions that agree on it): the handshake of
+    `c17_seedkey_handshake`, then exactly the run of `c17_write`; the application is consulted once, after the right key,
+    with key and seed; it receives exactly the bytes of the client's values; both nodes are clean afterwards -/
+theorem c17_write_seedkey (env : Env) (c0 s0 : Node) (hc0 : Clean c0) (hs0 : Clean s0) (hsec : s0.seedSecurity = true)
+    (hk : s0.s.hasKey = true) (hp : s0.hasProceed = true) (hck : c0.q.hasKey = true)
+    (cl sv direct address osize seed sd2 sd3 e x : Nat) (values dd : List Nat)
+    (hv : ∀ v ∈ values, v < 256 ^ osize) (hne : values ≠ []) (hbytes : values.length * osize ≤ 255)
+    (ha : address < 2 ^ 32) (hd : direct < 16) (hlv : c0.q.userLevel < 2 ^ 16) (hseed : seed < 2 ^ 16)
+    (hkeys : env.ckey seed = env.skey seed) (hk16 : env.skey seed < 2 ^ 16) :
+    let rs1 := deliver env s0 seed true ⟨PGN_DM14, cl, openDm14 values.length direct CMD_WRITE address c0.q.userLevel⟩
+    let rs2 := deliver env rs1.n sd2 true ⟨PGN_DM14, cl, openDm14 values.length direct CMD_WRITE address (env.skey seed)⟩
+    let rp := respond rs2.n sd3 true dd e x
+    let rc := clientWriteSK env c0 sv direct address osize values seed
+    let rw := deliver env rp.1 sd2 true ⟨PGN_DM16, cl, cliDm16 (valuesToBytes osize values)⟩
+    let rr := respondResume rw.n false
+    let rz := deliver env rr.1 sd2 true ⟨PGN_DM14, cl, closeDm14 direct address⟩
+    rs1.outs = [.tx PGN_DM15 (cl &&& 0xFF) 6 (seedDm15 direct seed)] ∧
+    rs2.outs = [.proceed CMD_WRITE address (direct % 2) 8 values.length (env.skey seed) cl c0.q.userLevel seed, .notify] ∧
+    rp.2 = ([.tx PGN_DM15 (cl &&& 0xFF) 6 (proceedDm15 direct values.length)], .blocked) ∧
+    rw.outs = [.tx PGN_DM15 (cl &&& 0xFF) 6 (opcDm15 direct)] ∧ rw.err = none ∧
+    rr.2 = .data (valuesToBytes osize values) ∧
+    rc.2.1 = [.tx PGN_DM14 (sv &&& 0xFF) 6 (openDm14 values.length direct CMD_WRITE address c0.q.userLevel),
+              .tx PGN_DM14 (sv &&& 0xFF) 6 (openDm14 values.length direct CMD_WRITE address (env.skey seed)),
+              .tx PGN_DM16 (sv &&& 0xFF) 6 (cliDm16 (valuesToBytes osize values)),
+              .tx PGN_DM14 (sv &&& 0xFF) 6 (closeDm14 direct address)] ∧
+    rc.2.2 = .none ∧ Clean rc.1 ∧
+    rz.outs = [] ∧ rz.err = none ∧ Clean rz.n := by
+  intro rs1 rs2 rp rc rw rr rz
+  have hS := server_sends_seed env s0 hs0 hsec hk seed cl values.length direct CMD_WRITE address c0.q.userLevel (by decide) hd hlv
+  have hrs1 : rs1 = _ := hS
+  obtain ⟨k1, k2, k3, k4, k5, k6⟩ := server_accepts_key env rs1.n cl values.length direct CMD_WRITE address (env.skey seed) sd2 (by decide) hd hk16 ha
+    (by rw [hrs1]) (by rw [hrs1]; exact hs0.subs) (by rw [hrs1]; exact hsec) (by rw [hrs1]; exact hp) (by rw [hrs1]) (by rw [hrs1])
+    (by rw [hrs1]) (by rw [hrs1]; exact hs0.busy) (by rw [hrs1]) (by rw [hrs1]; exact hs0.sd) (by rw [hrs1])
+  obtain ⟨p1, p2, p3, p4, p5, p6, p7, p8, p9, p10, p11⟩ := server_write_begin rs2.n cl values.length direct sd3 k3 dd e x
+  obtain ⟨w1, w2, w3, w4, w5, w6⟩ := server_write_data env rp.1 cl direct sd2 true (valuesToBytes osize values)
+    (by rw [valuesToBytes_length]; exact hbytes) p2 p3 p4 p5 p6 p7 p8 p9
+  obtain ⟨c1, c2, c3⟩ := client_write_sk env c0 hc0 hck sv direct address osize values seed hv hne ha hd hseed
+  have haddr : ∀ ad, rr.1.s.address = some ad → ad = Py.slice (closeDm14 direct address) 2 6 := by
+    intro ad h
+    rw [w6, p11, k5] at h
+    simp only [Option.some.injEq] at h
+    rw [← h, closeDm14, open_slice]
+  obtain ⟨z1, z2, z3, z4, z5, z6, z7, z8, z9, z10, z11⟩ := server_closing env rr.1 cl sd2 true (closeDm14 direct address) w4
+    (by simp [closeDm14, openDm14, toBytesLE_length]) haddr
+  refine ⟨by rw [hrs1], by rw [k1, hrs1], p1, w1, w2, w3, by rw [c1, hkeys], c2, c3, z1, z2, ?_⟩
+  exact clean_of _ z3 (by rw [z11, w5, p10, k4, hrs1]; exact hs0.q) z4 z5 (by rw [z11, w5, p10, k4, hrs1]; exact hs0.qd)
+    (by rw [z11, w5, p10, k4, hrs1]; exact hs0.qe) z8 z6 z7 z9 z10
+/-- C17, READ of 8..255 bytes WITH seed/key, the whole transaction: the handshake, then exactly the run of `c17_read_long`
+    (multi-packet DM16, the transport's acknowledgement, operation-complete); the client's call returns exactly the served
+    bytes; both nodes are clean afterwards -/
+theorem c17_read_long_seedkey (env : Env) (c0 s0 : Node) (hc0 : Clean c0) (hs0 : Clean s0) (hsec : s0.seedSecurity = true)
+    (hk : s0.s.hasKey = true) (hp : s0.hasProceed = true) (hck : c0.q.hasKey = true)
+    (cl sv direct address count osize seed sd2 sd3 e x : Nat) (signed raw : Bool) (d ack : List Nat)
+    (hcount : count ≠ 0) (ha : address < 2 ^ 32) (hd : direct < 16) (hlv : c0.q.userLevel < 2 ^ 16) (hseed : seed < 2 ^ 16)
+    (hkeys : env.ckey seed = env.skey seed) (hk16 : env.skey seed < 2 ^ 16)
+    (hd8 : 7 < d.length) (hd255 : d.length ≤ 255) (hack : 1 ≤ ack.length) :
+    let rs1 := deliver env s0 seed true ⟨PGN_DM14, cl, openDm14 count direct CMD_READ address c0.q.userLevel⟩
+    let rs2 := deliver env rs1.n sd2 true ⟨PGN_DM14, cl, openDm14 count direct CMD_READ address (env.skey seed)⟩
+    let rp := respond rs2.n sd3 true d e x
+    let ra := deliver env rp.1 sd2 true ⟨PGN_DM16, cl, ack⟩
+    let rc := clientReadSK env c0 sv direct address count osize signed raw seed (srvDm16 d)
+    let rz := deliver env ra.n sd2 true ⟨PGN_DM14, cl, closeDm14 direct address⟩
+    rs1.outs = [.tx PGN_DM15 (cl &&& 0xFF) 6 (seedDm15 direct seed)] ∧
+    rs2.outs = [.proceed CMD_READ address (direct % 2) 8 count (env.skey seed) cl c0.q.userLevel seed, .notify] ∧
+    rp.2 = ([.tx PGN_DM15 (cl &&& 0xFF) 6 (proceedDm15 direct count), .tx PGN_DM16 (cl &&& 0xFF) 7 (srvDm16 d)], .none) ∧
+    ra.outs = [.tx PGN_DM15 (cl &&& 0xFF) 6 (opcDm15 direct)] ∧ ra.err = none ∧
+    rc.2.1 = [.tx PGN_DM14 (sv &&& 0xFF) 6 (openDm14 count direct CMD_READ address c0.q.userLevel),
+              .tx PGN_DM14 (sv &&& 0xFF) 6 (openDm14 count direct CMD_READ address (env.skey seed)),
+              .tx PGN_DM14 (sv &&& 0xFF) 6 (closeDm14 direct address)] ∧
+    rc.2.2 = readResult osize signed raw d ∧ Clean rc.1 ∧
+    rz.outs = [] ∧ rz.err = none ∧ Clean rz.n := by
+  intro rs1 rs2 rp ra rc rz
+  have hS := server_sends_seed env s0 hs0 hsec hk seed cl count direct CMD_READ address c0.q.userLevel (by decide) hd hlv
+  have hrs1 : rs1 = _ := hS
+  obtain ⟨k1, k2, k3, k4, k5, k6⟩ := server_accepts_key env rs1.n cl count direct CMD_READ address (env.skey seed) sd2 (by decide) hd hk16 ha
+    (by rw [hrs1]) (by rw [hrs1]; exact hs0.subs) (by rw [hrs1]; exact hsec) (by rw [hrs1]; exact hp) (by rw [hrs1]) (by rw [hrs1])
+    (by rw [hrs1]) (by rw [hrs1]; exact hs0.busy) (by rw [hrs1]) (by rw [hrs1]; exact hs0.sd) (by rw [hrs1])
+  obtain ⟨p1, p2, p3, p4, p5, p6, p7, p8, p9, p10, p11⟩ := server_read_long rs2.n cl count direct sd3 k3 d hd8 e x
+  obtain ⟨a1, a2, a3, a4, a5⟩ := server_read_ack env rp.1 cl direct sd2 true ack hack p2 p3 p4 p5 p6 p7 p8 p9
+  obtain ⟨c1, c2, c3⟩ := client_read_sk env c0 hc0 hck sv direct address count osize signed raw seed (srvDm16 d) d hcount ha hd hseed
+    (by simp [srvDm16]) (srvDm16_payload d hd255)
+  have haddr : ∀ ad, ra.n.s.address = some ad → ad = Py.slice (closeDm14 direct address) 2 6 := by
+    intro ad h
+    rw [a5, p11, k5] at h
+    simp only [Option.some.injEq] at h
+    rw [← h, closeDm14, open_slice]
+  obtain ⟨z1, z2, z3, z4, z5, z6, z7, z8, z9, z10, z11⟩ := server_closing env ra.n cl sd2 true (closeDm14 direct address) a3
+    (by simp [closeDm14, openDm14, toBytesLE_length]) haddr
+  refine ⟨by rw [hrs1], by rw [k1, hrs1], by rw [p1, srvDm16_long d hd8], a1, a2, by rw [c1, hkeys], c2, c3, z1, z2, ?_⟩
+  exact clean_of _ z3 (by rw [z11, a4, p10, k4, hrs1]; exact hs0.q) z4 z5 (by rw [z11, a4, p10, k4, hrs1]; exact hs0.qd)
+    (by rw [z11, a4, p10, k4, hrs1]; exact hs0.qe) z8 z6 z7 z9 z10
+
 end J1939.Props.C17
